@@ -1,6 +1,7 @@
 package main
 
 import (
+	"regexp"
 	"fmt"
 	"go/token"
 	"go/types"
@@ -244,12 +245,39 @@ func (fv *FuncVerifier) applyContract(st *State, c *FuncContract, name string, p
 	if pkg == nil && ci != nil && ci.fn.Pkg != nil {
 		pkg = ci.fn.Pkg.Pkg
 	}
-	// ghost (logical) parameters are existential at call sites: unsupported unless none
+	// ghost (logical) parameters are universally quantified over the whole contract, so a call
+	// site may instantiate them with anything: a ghost parameter of the caller with the same name
+	// is used; clauses that mention a ghost parameter the caller cannot instantiate are dropped
+	// from the assumed postcondition (sound) and fail as preconditions.
+	var unboundGhost []string
+	for _, g := range c.Ghost {
+		if gv, ok := fv.ghost[g.Name]; ok {
+			vars[g.Name] = gv
+		} else {
+			unboundGhost = append(unboundGhost, g.Name)
+		}
+	}
+	mentionsUnbound := func(e SExpr) bool {
+		if len(unboundGhost) == 0 {
+			return false
+		}
+		txt := e.String()
+		for _, g := range unboundGhost {
+			if regexp.MustCompile(`\b` + regexp.QuoteMeta(g) + `\b`).MatchString(txt) {
+				return true
+			}
+		}
+		return false
+	}
 	env := &Env{fv: fv, enc: fv.enc, st: st, vars: vars, pkg: pkg, nb: &fv.enc.nfresh}
 	fv.callIdx[name]++
 	k := fv.callIdx[name]
 	sn := shortName(name)
 	for i, r := range c.Requires {
+		if mentionsUnbound(r.E) {
+			fv.addOb(st, "pre", fmt.Sprintf("pre:%s#%d.%d", sn, k, i), FalseT, "precondition mentions a logical parameter the caller cannot instantiate: "+r.Src, pos)
+			continue
+		}
 		g := fv.safeEvalBool(env, r.E, "pre of "+sn)
 		fv.addOb(st, "pre", fmt.Sprintf("pre:%s#%d.%d", sn, k, i), g, r.Src, pos)
 		st.assume(g)
@@ -319,6 +347,9 @@ func (fv *FuncVerifier) applyContract(st *State, c *FuncContract, name string, p
 		return res
 	}
 	for _, e := range c.Ensures {
+		if mentionsUnbound(e.E) {
+			continue
+		}
 		st.assume(fv.safeEvalBool(penv, e.E, "post of "+sn))
 	}
 	return res
@@ -729,6 +760,20 @@ func (fv *FuncVerifier) appendOp(st *State, cc *ssa.CallCommon, args []Value) Va
 			st.assume(Forall([]string{"k!q"}, Implies(And(Le(I(0), k), Lt(k, tlen)), Eq(Select(ra, Add(s.L[2], k)), elemOfT(k)))))
 		}
 		st.setHeap(name, Store(ea, rarr, Ite(inplace, inpl, ra)))
+		// the same facts once more in the shape in which the result is read back (element k of
+		// the result slice), so that quantified invariants over the old slice are triggered by
+		// reads of the new one (redundant, derivable from the definitions above)
+		resInner := enc.fresh("appres", arrSort(l.Sort))
+		st.assume(Eq(resInner, Select(st.heapArr(name, arrSort(arrSort(l.Sort))), rarr)))
+		roffC := enc.fresh("appoff", SInt)
+		st.assume(Eq(roffC, roff))
+		lhs := enc.elemAt(resInner, roffC, k)
+		st.assume(Term{"(forall ((k!q Int)) (! " + Implies(And(Le(I(0), k), Lt(k, s.L[2])), Eq(lhs, enc.elemAt(srcInner, s.L[1], k))).S + " :pattern (" + lhs.S + ")))", SBool})
+		if constLen && n <= 8 {
+			for i := int64(0); i < n; i++ {
+				st.assume(Eq(enc.elemAt(resInner, roffC, Add(s.L[2], I(i))), elemOfT(I(i))))
+			}
+		}
 	}
 	return Value{Typ: s.Typ, L: []Term{rarr, roff, newLen, rcap}}
 }
